@@ -1109,8 +1109,21 @@ func (x *Exec) rangeStmt(s *ast.RangeStmt, st *State, cs []*ctl, label string) [
 			elemAt = func(st *State, i *Term) Value { return x.readArr(st, av, elemT, i) }
 		case *types.Basic:
 			if isStringType(xt) {
-				x.fail(s.Pos(), "outside subset: range over string (runes)")
-				return nil
+				if !x.coarse {
+					x.fail(s.Pos(), "outside subset: range over string (runes)")
+					return nil
+				}
+				// coarse units: an unknown number (at most len) of unknown
+				// code points at unknown byte positions
+				sl, _ := cv.(Sl)
+				cnt := x.freshTerm("runecnt", x.ar.idxSort())
+				st.add(x.ar.le(x.ar.idxC(0), cnt, idxII))
+				if sl.Len != nil {
+					st.add(x.ar.le(cnt, sl.Len, idxII))
+				}
+				n = cnt
+				mapKeyT, mapValT = types.Typ[types.Int], types.Typ[types.Rune]
+				x.abstr["range over the runes of "+x.src(s.X)+": positions and code points unknown"] = true
 			}
 		default:
 			_ = u
